@@ -79,6 +79,8 @@ def rnd(x, sig=10):
     if isinstance(x, (list, tuple)):
         return tuple(rnd(v, sig) for v in x)
     if isinstance(x, np.ndarray):
+        if x.ndim == 0:
+            return rnd(x.tolist(), sig)
         return tuple(rnd(v, sig) for v in x.tolist())
     if isinstance(x, (float, np.floating)):
         x = float(x)
